@@ -3,11 +3,12 @@
 package c12
 
 import (
-	"math/big"
 	"fmt"
 	"math"
+	"math/big"
 	"math/rand"
 
+	"github.com/golang/geo/r1"
 	"github.com/golang/geo/r2"
 	"github.com/golang/geo/s1"
 	"github.com/golang/geo/s2"
@@ -379,7 +380,32 @@ func cellTarget(c *mon.Case) {
 	cell := randCell(r)
 	var other s2.Cell
 	kind := ""
-	switch r.Intn(6) {
+	switch r.Intn(7) {
+	case 6: // a cell of another level on the same face that only touches the cell (part of an edge, or a corner)
+		var nb []s2.CellID
+		if cell.Level() > 0 {
+			nb = cell.ID().AllNeighbors(cell.Level() - r.Intn(minInt(cell.Level(), 4)))
+		}
+		var cand []s2.Cell
+		for _, id := range nb {
+			if o := s2.CellFromCellID(id); o.Face() == cell.Face() && !id.Intersects(cell.ID()) && o.BoundUV().Intersects(cell.BoundUV()) {
+				cand = append(cand, o)
+			}
+		}
+		if len(cand) == 0 {
+			return
+		}
+		other, kind = cand[r.Intn(len(cand))], "touching-same-face"
+		for steps := r.Intn(6); steps > 0 && !other.ID().IsLeaf(); steps-- {
+			ch := other.ID().Children()
+			for _, k := range r.Perm(4) {
+				if o := s2.CellFromCellID(ch[k]); o.BoundUV().Intersects(cell.BoundUV()) {
+					other = o
+					break
+				}
+			}
+		}
+		c.Count("dist.cell.touching_same_face", 1)
 	case 0:
 		other, kind = s2.CellFromCellID(cell.ID().EdgeNeighbors()[r.Intn(4)]), "edge-neighbour"
 	case 1:
@@ -430,6 +456,14 @@ func cellTarget(c *mon.Case) {
 	}
 	if math.Abs(d-trueMin) > tol(math.Max(d, trueMin)) {
 		c.Violation("DistanceToCell/"+mon.Severity(math.Abs(d-trueMin)), fmt.Sprintf("DistanceToCell=%.17g, exact %.17g", d, trueMin), det())
+	}
+	if cell.Face() == other.Face() && cell.BoundUV().Intersects(other.BoundUV()) {
+		// on one face the cells are closed (u,v) rectangles with exactly represented sides: if these share a
+		// point, part of the target lies in the cell and the minimum distance is zero, not "nearly zero"
+		c.Count("dist.cell.sharing_points_on_one_face", 1)
+		if d != 0 || float64(other.DistanceToCell(cell)) != 0 {
+			c.Violation("DistanceToCell/nonzero-for-cells-sharing-points/wrong-answer", fmt.Sprintf("DistanceToCell=%.17g (other direction %.17g) for two cells of one face whose closed (u,v) rectangles share points", d, float64(other.DistanceToCell(cell))), det())
+		}
 	}
 	if d2 := float64(other.DistanceToCell(cell)); math.Abs(d2-d) > tol(d) {
 		c.Violation("DistanceToCell/asymmetric/"+mon.Severity(math.Abs(d2-d)), fmt.Sprintf("DistanceToCell differs by direction: %.17g vs %.17g", d, d2), det())
@@ -541,6 +575,29 @@ func padded(c *mon.Case) {
 	hx := size * gen.LogUniform(r, 1e-4, 2)
 	hy := size * gen.LogUniform(r, 1e-4, 2)
 	rect := r2.RectFromPoints(r2.Point{X: cx - hx*r.Float64(), Y: cy - hy*r.Float64()}, r2.Point{X: cx + hx*r.Float64(), Y: cy + hy*r.Float64()})
+	if r.Intn(3) == 0 && level < 30 {
+		// a rectangle one side of which is bitwise equal to the opposite side of a descendant's padded bound:
+		// as closed sets they intersect, so the result has to contain that descendant
+		dl := level + 1 + r.Intn(minInt(30-level, 6))
+		dd := s2.CellFromPoint(gen.Near(r, cell.Center(), cellDiag(cell)*0.5*r.Float64())).ID().Parent(dl)
+		if id.Contains(dd) {
+			db := s2.PaddedCellFromCellID(dd, padding).Bound()
+			w, h := db.X.Length()*gen.LogUniform(r, 1e-3, 30), db.Y.Length()*gen.LogUniform(r, 1e-3, 30)
+			y0 := db.Y.Lo + (r.Float64()*1.6-0.8)*db.Y.Length()
+			x0 := db.X.Lo + (r.Float64()*1.6-0.8)*db.X.Length()
+			switch r.Intn(4) {
+			case 0:
+				rect = r2.Rect{X: r1.Interval{Lo: db.X.Hi, Hi: db.X.Hi + w}, Y: r1.Interval{Lo: y0, Hi: y0 + h}}
+			case 1:
+				rect = r2.Rect{X: r1.Interval{Lo: db.X.Lo - w, Hi: db.X.Lo}, Y: r1.Interval{Lo: y0, Hi: y0 + h}}
+			case 2:
+				rect = r2.Rect{X: r1.Interval{Lo: x0, Hi: x0 + w}, Y: r1.Interval{Lo: db.Y.Hi, Hi: db.Y.Hi + h}}
+			default:
+				rect = r2.Rect{X: r1.Interval{Lo: x0, Hi: x0 + w}, Y: r1.Interval{Lo: db.Y.Lo - h, Hi: db.Y.Lo}}
+			}
+			c.Count("padded.shrink_rect_touching_descendant_bound", 1)
+		}
+	}
 	if !rect.Intersects(b) {
 		return
 	}
@@ -563,16 +620,26 @@ func padded(c *mon.Case) {
 			}
 		}
 	}
-	if len(D) == 0 || near {
+	if len(D) == 0 {
 		return
 	}
 	c.Count("padded.shrink_checked", 1)
-	sd := det(map[string]any{"rect": fmt.Sprint(rect), "result": got.ToToken(), "descendants_meeting_rect": len(D), "descendant_level": L})
+	sd := det(map[string]any{"rect": fmt.Sprintf("X[%.17g,%.17g] Y[%.17g,%.17g]", rect.X.Lo, rect.X.Hi, rect.Y.Lo, rect.Y.Hi), "result": got.ToToken(), "descendants_meeting_rect": len(D), "descendant_level": L})
+	// safety direction, asserted also at ties: a descendant whose (closed) padded bound meets the (closed)
+	// rectangle lies in the result. (Only for paddings below 0.5: the library widens the rectangle by
+	// padding + 1.5*2^-52 to absorb its own rounding, and for a padding of the size of a whole face that
+	// constant is itself rounded away, so an exact tie may then fall on either side. The index pads by 1e-15.)
+	if near && padding >= 0.5 {
+		return
+	}
 	for _, d := range D {
 		if !got.Contains(d) && !(len(D) == 1 && d.Contains(got)) {
 			c.Violation("PaddedCell/ShrinkToFit/misses-descendant/wrong-answer", fmt.Sprintf("ShrinkToFit returned %s, which does not contain descendant %s whose padded bound meets the rectangle", got.ToToken(), d.ToToken()), sd)
 			return
 		}
+	}
+	if near {
+		return // minimality is not asserted at ties
 	}
 	lca := D[0]
 	for _, d := range D[1:] {
@@ -586,4 +653,11 @@ func padded(c *mon.Case) {
 	} else if len(D) == 1 && !(D[0].Contains(got)) {
 		c.Violation("PaddedCell/ShrinkToFit/not-smallest/wrong-answer", fmt.Sprintf("ShrinkToFit returned %s; only descendant %s meets the rectangle, so the answer must lie inside it", got.ToToken(), D[0].ToToken()), sd)
 	}
+}
+
+func minInt(a, b int) int {
+	if a < b {
+		return a
+	}
+	return b
 }
